@@ -32,6 +32,8 @@ type vDetStep struct {
 	FfcAge int     `json:"ffcAge"` // ms since the last FFC
 	// processor chain only: the storage StopRecording call made by this reset / frame fails
 	StopFail bool `json:"stopFail"`
+	// processor chain only: the recording window (10:00-14:00) is closed when this frame arrives
+	Closed bool `json:"closed"`
 }
 type vDetScript struct {
 	Cfg   vDetCfg    `json:"cfg"`
